@@ -129,7 +129,9 @@ def run(idx: Index, rep: Report, tier: str) -> None:
         for n in mc.nodes:
             if n.kind != "return" or n.ast.value is None:
                 continue
-            gs = [(norm(t.ast), o) for t, o in guards_dominating(mc, n)]
+            from ..rules2 import path_facts
+
+            gs = path_facts(mc, n)  # polarity-normalised: `if not len(x) == 1: … else: <here>` gives (len(x) == 1, True)
             if any(g.startswith("len(") and g.endswith("== 0") and o for g, o in gs) and norm(n.ast.value) == neut:
                 got0 = True
             if any(g.startswith("len(") and g.endswith("== 1") and o for g, o in gs) and norm(n.ast.value).endswith("[0]"):
